@@ -214,6 +214,24 @@ func (in *Interp) store(c *Cell, v Value) {
 	if c == nil {
 		panic(in.targetPanicStr("runtime error: invalid memory address or nil pointer dereference"))
 	}
+	// Aggregates are assigned in place, field by field: pointers to fields or
+	// elements of the destination taken earlier must stay valid.
+	switch nv := v.(type) {
+	case Struct:
+		if ov, ok := c.V.(Struct); ok && len(ov) == len(nv) {
+			for i := range ov {
+				in.store(&ov[i], nv[i].V)
+			}
+			return
+		}
+	case Array:
+		if ov, ok := c.V.(Array); ok && len(ov) == len(nv) {
+			for i := range ov {
+				in.store(&ov[i], nv[i].V)
+			}
+			return
+		}
+	}
 	if in.ps != nil {
 		if c.Epoch == 0 {
 			in.undo = append(in.undo, undoEntry{c: c, old: c.V})
@@ -462,6 +480,9 @@ func (in *Interp) runFrame(fr *frame) {
 			}
 			fr.cur = instr
 			in.curFrame = fr
+			if traceFn != "" && fr.fn.Name() == traceFn {
+				fmt.Fprintf(os.Stderr, "TRACE b%d %v\n", blk.Index, instr)
+			}
 			in.steps++
 			if in.maxSteps > 0 && in.steps > in.maxSteps {
 				panic(in.abort("budget", fmt.Sprintf("step budget %d exceeded", in.maxSteps)))
@@ -993,6 +1014,8 @@ func (in *Interp) concInt(t *Term, signed bool) int64 {
 	}
 	panic(in.abort("unwind", "more than 64 feasible values for a symbolic integer used as size/index"))
 }
+
+var traceFn = os.Getenv("SYMGO_TRACE")
 
 func debugf(format string, args ...interface{}) {
 	fmt.Fprintf(os.Stderr, format, args...)
